@@ -41,7 +41,7 @@ AllowedC05(e) == CASE e.op = "tok" -> TokOK(e) [] e.op = "list" -> ListOK(e) [] 
 AllowedC06(e) == e.op = "tok" => e.rt = 1
 \* ---- C09
 NoPanicStr(e) == /\ e.rank # "panic" /\ e.suit # "panic" /\ e.card # "panic" /\ e.pair # "panic" /\ e.token # "panic"
-                 /\ e.range # "panic" /\ e.expand # "panic" /\ e.fmt # "panic" /\ e.split # "panic" /\ e.enum # "panic"
+                 /\ e.range # "panic" /\ e.expand # "panic" /\ e.fmt # "panic" /\ e.split # "panic" /\ e.enum \notin {"panic", "hang"}
 AllowedC09(e) == CASE e.op = "str" -> NoPanicStr(e)
                    [] e.op = "tok" -> e.tres # "panic" /\ e.rres # "panic" /\ e.rt # -2
                    [] e.op = "list" -> e.rres # "panic"
